@@ -42,6 +42,12 @@ func (k Keeper) VerifyProposal(ctx context.Context, req types.IVoteMsg, verifyFn
 		return 0, errorsmod.Wrap(sdkerrors.ErrInvalidRequest, "invalid voters length")
 	}
 
+	// every marked position must denote a current voter: a bit beyond the voter list would be
+	// counted toward the threshold above without any key taking part in the verification below
+	if max, ok := bmp.Max(); ok && int(max) >= len(voters) {
+		return 0, errorsmod.Wrap(sdkerrors.ErrInvalidRequest, "voter bitmap marks a position beyond the voter list")
+	}
+
 	pubkeys := make([][]byte, 0, bmpLen+1)
 	proposer, err := k.Voters.Get(ctx, relayer.Proposer)
 	if err != nil {
